@@ -65,6 +65,12 @@ _LIST_TEMPLATES = ["associate ({L})", "use m, only: {L}", "integer :: {L}", "pub
 _LIST_FORMS = ["", ",", ", a", "a,", "a,,b", ", a => b", "a => b,", "a =>", "=> b", "(", ")", "a => b, , c => d",
                "a(,)", ",,", "a b"]
 KEYWORD_LINES += [t.replace("{L}", f) for t in _LIST_TEMPLATES for f in _LIST_FORMS]
+# tokens beyond every built-in size limit (CPython refuses int() of more than 4300 digits)
+_HUGE = "9" * 4400
+KEYWORD_LINES += [f"do {_HUGE} i = 1, 2", f"{_HUGE} continue", f"      do {_HUGE} k=1,3", f"goto {_HUGE}", f"x = {_HUGE}",
+                  f"integer(kind={_HUGE}) :: hk", f"real :: a({_HUGE})", f"#if {_HUGE} > 1", f"#define BIG {_HUGE}",
+                  f"character(len={_HUGE}) :: s", f"{_HUGE} format (i4)", f"x = 1.0e{_HUGE}", f"x = {_HUGE}_8",
+                  "x = '" + "q" * 70000 + "'", "! " + "c" * 70000, "call s(" + ", ".join(["a"] * 3000) + ")"]
 
 
 def plan(tier):
@@ -107,7 +113,7 @@ def cut_text(rng, text, mode):
         ls = text.split("\n")
         j = rng.randrange(len(ls) + 1)
         return "\n".join(ls[:j]) + ("\n" if j and rng.random() < 0.8 else "")
-    b = text.encode("utf-8")
+    b = text.encode("utf-8", "replace")
     j = rng.randint(0, len(b))
     return b[:j]
 
@@ -142,9 +148,13 @@ def corrupt(rng, text):
             else:
                 ls[j] = ls[j][:t.end()] + t.group(0) + ls[j][t.end():]
         return "\n".join(ls)
+    if rng.random() < 0.05 and text:
+        # what only an editor buffer can hold: half of a surrogate pair (a client cut an emoji in two)
+        j = rng.randrange(len(text) + 1)
+        return text[:j] + rng.choice(["\ud83d", "\udc00", "\udfff\ud800"]) + text[j:]
     r = rng.random()
     if r < 0.15 and text:
-        b = bytearray(text.encode("utf-8"))
+        b = bytearray(text.encode("utf-8", "replace"))
         j = rng.randrange(len(b))
         b[j] ^= 1 << rng.randrange(8)
         return bytes(b)
@@ -296,7 +306,7 @@ class Builder:
         self.ntexts += 1
         s = sentinel(self.tag, self.fid, self.ver, self.fixed)
         if isinstance(content, bytes):
-            return s.encode("utf-8") + content
+            return s.encode("utf-8", "replace") + content
         return s + content
 
     def mark(self):
